@@ -126,7 +126,14 @@ def run(prop):
         lad = ladder.Ladder(prop)
         corr.h.close()
         corr.h = lad.h  # share one harness process
+        links = {}
+        link_fail = []
         for path, _ in files:
+            if "/corpus/regress/" in path:
+                # minimised past failures are replayed in a FRESH compiler process (label counter 0)
+                lad.h.close()
+                lad.h = common.harness()
+                corr.h = lad.h
             st = lad.stages(path)
             if st is None:
                 found = True
@@ -161,6 +168,13 @@ def run(prop):
                 # outside the domain of the semantic / typing oracles; dumps were still compared
                 chk.notes["skipped_invalid_main"] = chk.notes.get("skipped_invalid_main", 0) + 1
                 continue
+            # C12: decidable content of the link hypotheses of C12_chain (Scc/Props/C12.lean) on this program
+            if prop == "C12" and "S1" in st and st["S1"][0] == "OK":
+                ln = lad.ask("links %s" % path)
+                key_ = "OK" if ln and ln.startswith("OK") else (ln or "none").split(" ")[0]
+                links[key_] = links.get(key_, 0) + 1
+                if ln and ln.startswith("FAIL"):
+                    link_fail.append({"file": path, "links": ln[:200]})
             # typing / scoping oracles on the implementation's output
             for stage, checker, owner, ok, line in lad.typechecks(st, spec["types"]):
                 if not ok and (spec["owners"] is None or owner in spec["owners"]):
@@ -189,6 +203,12 @@ def run(prop):
                                       "file=%s\nargs=%s\n%s=%s\n%s=%s\nsource:\n%s\n" % (path, args, la, ba, lb, bb, src))
                 chk.sample({"file": path, "args": args, "rungs": [(l, b) for l, b, _ in rungs][:4]}, limit=3)
         chk.notes["pass_outcomes"] = corr.stats
+        if prop == "C12":
+            chk.notes["links_histogram"] = links
+            chk.obligation("links:hypotheses of C12_chain hold on every accepted program with a valid main (decidable content)", "correspondence", not link_fail, json.dumps(link_fail[:3])[:400])
+            if link_fail:
+                proofs_ok = False
+                plog += json.dumps(link_fail[:5])
         lad.close()
         corr.m.close()
     chk.obligation("corr:%s" % "+".join(spec["passes"]), "correspondence", chk.corr["disagreements"] == 0,
